@@ -1,12 +1,16 @@
 import Nervus.Driver.Util
 import Nervus.Driver.OKey
 import Nervus.Driver.Value
+import Nervus.Driver.Sort
+import Nervus.Driver.Agg
 open Nervus.Driver
 
 /-- stream registry: one line per stream (kept one-per-line so that merges are unions) -/
 def streams : List (String × Stream) := [
   ("okey", OKeyStream.stream),
-  ("value", ValueStream.stream)
+  ("value", ValueStream.stream),
+  ("sort", SortStream.stream),
+  ("agg", AggStream.stream)
 ]
 
 def main (args : List String) : IO UInt32 := do
